@@ -2,7 +2,7 @@ SPECIFICATION MCSpec
 CONSTANTS Keys = {0, 1}
  Vals = {1, 2}
  MaxTs = 2
- KeepTs = FALSE
+ KeepTs = TRUE
  Thresh = 1
 VIEW View
 CONSTRAINT PendBound
